@@ -179,6 +179,14 @@ func genPlanC13(rt *rapid.T) *RPlan {
 	switch p.Scenario {
 	case "pacing":
 		add(total, 0)
+		// routing-lost indications while the burst is under way: the repetitions are transmissions like any other
+		// and compete with the senders that are queueing on the send lock
+		if rapid.Bool().Draw(rt, "lost-during-burst") {
+			span := total * per
+			for i := 0; i < rapid.IntRange(1, 3).Draw(rt, "losts"); i++ {
+				p.Net = append(p.Net, RNet{AfterUs: rapid.IntRange(200, span/3+300).Draw(rt, "lost-after"), Kind: "lost", Count: rapid.IntRange(1, 6).Draw(rt, "lost-count")})
+			}
+		}
 	case "idle":
 		// a first burst, then (after it has drained) a busy at idle, then a second burst released once the hold was seen
 		first := total / 2
@@ -231,6 +239,13 @@ func TestC13(t *testing.T) {
 		rec.Class("scenario-" + p.Scenario)
 		rec.Class(fmt.Sprintf("senders=%d", len(p.Senders)))
 		contended := len(p.Senders) >= 2
+		for _, n := range p.Net {
+			if n.Kind == "lost" {
+				rec.Class("pacing: routing-lost indications during the burst")
+				contended = true
+				break
+			}
+		}
 		busyTook := false
 		afterHandover := 0
 		var h int64 = -1
